@@ -5,6 +5,8 @@
 import EG.Lemmas.RectPoints
 import EG.Model.Target
 namespace EG
+-- Namespace `EG.Tgt`: keeps these generic names apart from other topics' lemma files.
+namespace Tgt
 
 /-! ### `lastWrite` -/
 
@@ -114,7 +116,7 @@ theorem lastWrite_zip_nodup (ps : List Pt) (hn : ps.Nodup) (cs : List Color) (p 
 def PMap.set (m : PMap) (w : Pt × Color) : PMap := fun p => if p = w.1 then some w.2 else m p
 
 theorem PMap.apply_cons (m : PMap) (w : Pt × Color) (ws : Writes) :
-    m.apply (w :: ws) = (m.set w).apply ws := rfl
+    m.apply (w :: ws) = (PMap.set m w).apply ws := rfl
 
 /-- `apply` = last write, else the old content. -/
 theorem PMap.apply_eq (m : PMap) (ws : Writes) (p : Pt) :
@@ -186,4 +188,5 @@ theorem runDefault_eq_runNative (B : Rect) (calls : List Call) : runDefault B ca
   apply flatMap_congr_left
   intro c _; exact Call.writesDefault_eq_writesNative B c
 
+end Tgt
 end EG
